@@ -57,7 +57,7 @@ def strategy(tier, phase):
                       st.lists(st.integers(-1, 20), max_size=2)).map(list)
     mode_b = st.fixed_dictionaries({"mode": st.just("b"), "nodes": st.lists(bnode, min_size=1, max_size=10),
                                     "gin": st.lists(small, max_size=3), "ginit": st.lists(small, max_size=3),
-                                    "fn": st.lists(bnode, min_size=0, max_size=4), "fin": st.lists(small, max_size=2),
+                                    "fn": st.lists(bnode, min_size=0, max_size=4), "fin": st.lists(small, max_size=2), "finit": st.lists(small, max_size=2),
                                     "again": st.one_of(st.just([]), st.lists(st.tuples(st.integers(0, 40), st.integers(0, 40)).map(list), min_size=1, max_size=3))})
     # mode c
     mode_c = st.fixed_dictionaries({"mode": st.just("c"), "vals": st.lists(st.integers(0, 30), min_size=1, max_size=6),
@@ -241,7 +241,7 @@ def run_a(case):
 def build_b(case):
     import onnx_ir as ir
 
-    def build_graph_family(recs, gin, ginit, prefix):
+    def build_graph_family(recs, gin, ginit, prefix, root_init=True):
         graph_parent = [None]
         node_graph, kids_of = [], []
         for i, rec in enumerate(recs):
@@ -296,7 +296,9 @@ def build_b(case):
                 graphs[gi].outputs.append(lst[-1].outputs[0])
         # initializers on the root graph (+ first nested graph)
         for k, nm in enumerate(ginit):
-            tgt = graphs[k % ng]
+            if not root_init and ng == 1:
+                break  # a function body owns no initializers; its nested graphs may
+            tgt = graphs[k % ng] if root_init else graphs[1 + k % (ng - 1)]
             v = ir.Value(name=f"__init{k}", const_value=ir.tensor([1.0], name=f"__init{k}"))
             tgt.initializers.add(v)
         # now force the requested (possibly missing / duplicate) names
@@ -320,7 +322,7 @@ def build_b(case):
     model = ir.Model(graphs[0], ir_version=10)
     fgraphs = []
     if case["fn"]:
-        fgraphs, fnodes, fgp, fngr = build_graph_family(case["fn"], case["fin"], [], "f")
+        fgraphs, fnodes, fgp, fngr = build_graph_family(case["fn"], case["fin"], case.get("finit") or [], "f", root_init=False)
         f = ir.Function("dom", "fn", graph=fgraphs[0], attributes=[])
         model.functions[f.identifier()] = f
     else:
